@@ -45,6 +45,12 @@ def gen(seed, tier):
         n_sub = r.randint(1, 4 if big else 3)
         w["n_sub"] = n_sub
         w["work"] = [r.choice([0, 0, 1, 2]) for _ in range(n_sub)]
+        # slow readers: simulated seconds of sleep after a given message (total < the mailbox timeout,
+        # so no timeout may legitimately fire)
+        w["sleeps"] = {}
+        if n_msg and r.random() < 0.3:
+            j = r.randrange(n_sub)
+            w["sleeps"][f"s{j}"] = [r.randrange(n_msg), r.choice([1, 5, 30])]
         drv = [r.random() < 0.6 for _ in range(n_sub)]
         if not any(drv) and not w["main_reads"]:
             drv[r.randrange(n_sub)] = True
@@ -92,6 +98,10 @@ def gen(seed, tier):
         w["outs"] = outs
         w["main_reads"] = False
         w["start_order"] = r.sample(range(n_out + 1), n_out + 1)
+        w["sleeps"] = {}
+        if n_msg and r.random() < 0.3:
+            o = r.randrange(n_out)
+            w["sleeps"][f"o{o}.s{r.randrange(outs[o]['n_sub'])}"] = [r.randrange(n_msg), r.choice([1, 5, 30])]
     return w
 
 
@@ -104,6 +114,8 @@ def shrink(w):
                 if c.get("late"):
                     c["late"] = [None if l is None else min(l, n) for l in c["late"]]
                 yield c
+    if w.get("sleeps"):
+        yield dict(w, sleeps={})
     if any(k == "f" for k in w["kinds"]):
         yield dict(w, kinds=["p"] * w["n_msg"])
     if w.get("n_sub", 0) > 1:
@@ -191,11 +203,15 @@ def _body(w, sim, rec):
     def make_reader(key, work):
         rec["got"][key] = []
 
+        nap = (w.get("sleeps") or {}).get(key)
+
         def reader(source):
             for x in source:
                 rec["got"][key].append(x)
                 for _ in range(work):
                     sim.yield_point("work")
+                if nap is not None and len(rec["got"][key]) - 1 == nap[0]:
+                    sim.sleep(nap[1])
             rec["done"].add(key)
         return reader
 
@@ -295,6 +311,9 @@ def execute(w, seed, strategy="random", forced=None, strict=False):
         vio = ab
     if vio is None and inv.bad:
         vio = inv.bad
+    if vio is None and sim.lost_wakeups:
+        lw = sim.lost_wakeups[0]
+        vio = Violation("LOST_WAKEUP", f"a thread keeps waiting although its condition holds ({lw['predicate']})", lw)
     if vio is None and sim.hangs:
         h = sim.hangs[0]
         vio = Violation("HANG", f"progress only by timeout: {h['fired'].split(':')[0].rstrip('0123456789')} "
